@@ -322,6 +322,19 @@ type formatVerb struct {
 	Width    int
 }
 
+// formatArgNumAppendDigit is called by formatFSM (generated by format_fsm.rl)
+// for each decimal digit of an explicit argument number. It returns the number
+// that results from appending the digit to n, saturating at the largest int
+// instead of overflowing: a number that large can't refer to any argument, and
+// must not wrap around to one that does (or to a negative index).
+func formatArgNumAppendDigit(n int, digit byte) int {
+	const maxInt = int(^uint(0) >> 1)
+	if n > (maxInt-9)/10 {
+		return maxInt
+	}
+	return (10 * n) + (int(digit) - '0')
+}
+
 // formatAppend is called by formatFSM (generated by format_fsm.rl) for each
 // formatting sequence that is encountered.
 func formatAppend(verb *formatVerb, buf *bytes.Buffer, args []cty.Value) error {
